@@ -305,7 +305,7 @@ func (g *xaGen) level(cur []string, inObj bool, depth int, n int) []*xaNode {
 			}
 		case k < 74: // BankField
 			_, fr := g.pick(cur, "OpRegion DataRegion", g.table, false)
-			_, fb := g.pick(cur, "Unit", g.table, false)
+			_, fb := g.pick(cur, "Unit BUnit", g.table, false)
 			if fr != nil && fb != nil {
 				v := g.constTerm()
 				switch g.rng.Intn(4) {
@@ -326,7 +326,7 @@ func (g *xaGen) level(cur []string, inObj bool, depth int, n int) []*xaNode {
 				els, names := g.els(g.rng.Intn(4))
 				out = append(out, &xaNode{tok: xaTok{K: "bfield", F: fr, G: fb, X: []xaTerm{v}, W: g.width(), Flags: flags(), Els: els}})
 				for _, nm := range names {
-					g.add("Unit", xaCat(cur, nm), 0, nil)
+					g.add("BUnit", xaCat(cur, nm), 0, nil)
 				}
 			}
 		case k < 80: // Alias: the source name is written so that the Alias node lands beside its source
@@ -377,6 +377,8 @@ type xaBodyGen struct {
 	g      *xaGen
 	m      *xaObj
 	locals []string
+	inIf   int  // nesting depth of Ifs that are read by the first pass (a Package there swallows what follows)
+	strict bool // inside a deferred block: names the tree cannot resolve (created fields) and BankField units reject the table
 }
 
 func (b *xaBodyGen) simple() xaTerm {
@@ -400,10 +402,14 @@ func (b *xaBodyGen) ref(kinds string) (xaTerm, bool) {
 // simple or a name
 func (b *xaBodyGen) atom() xaTerm {
 	if b.g.rng.Intn(3) == 0 {
-		if r, ok := b.ref("Name Unit External BufField"); ok {
+		kinds := "Name Unit External BufField BUnit"
+		if b.strict {
+			kinds = "Name Unit External"
+		}
+		if r, ok := b.ref(kinds); ok {
 			return r
 		}
-		if len(b.locals) > 0 && b.g.rng.Intn(2) == 0 {
+		if len(b.locals) > 0 && b.g.rng.Intn(2) == 0 && !b.strict {
 			return xaTerm{T: "ref", F: &xaForm{Segs: []string{b.locals[b.g.rng.Intn(len(b.locals))]}}}
 		}
 	}
@@ -431,13 +437,16 @@ func (b *xaBodyGen) flatArg(depth int) xaTerm {
 		}
 	case k == 2:
 		return xaTerm{T: "buffer", A: []xaTerm{b.bufLen()}, N: b.g.bytes(4)}
-	case k == 3:
+	case k == 3 && b.inIf == 0:
 		return b.pkg()
 	}
 	return b.atom()
 }
 
 func (b *xaBodyGen) bufLen() xaTerm {
+	was := b.strict
+	b.strict = true
+	defer func() { b.strict = was }()
 	switch b.g.rng.Intn(5) {
 	case 0:
 		if r, ok := b.ref("Name"); ok {
@@ -494,9 +503,9 @@ func (b *xaBodyGen) flatExpr(depth int) xaTerm {
 		}
 	case k == 7:
 		return xaTerm{T: "buffer", A: []xaTerm{b.bufLen()}, N: b.g.bytes(4)}
-	case k == 8:
+	case k == 8 && b.inIf == 0:
 		return b.pkg()
-	case k == 9:
+	case k == 9 && b.inIf == 0:
 		return xaTerm{T: "varpackage", A: []xaTerm{[]xaTerm{{T: "arg", N: []int{b.g.rng.Intn(7)}}, {T: "local", N: []int{b.g.rng.Intn(8)}}, {T: "one"}}[b.g.rng.Intn(3)], b.g.constTerm()}}
 	case k == 10:
 		return xaTerm{T: "op", S: "Match", A: []xaTerm{b.atom(), {T: "byte", N: []int{b.g.rng.Intn(2)}}, b.simple(), {T: "byte", N: []int{b.g.rng.Intn(2)}}, b.simple(), b.simple()}}
@@ -524,8 +533,8 @@ func (b *xaBodyGen) strictOperand(depth int, arg bool) xaTerm {
 		return xaTerm{T: "op", S: xaBinOps[b.g.rng.Intn(len(xaBinOps))], A: []xaTerm{b.detached(depth+1, arg), b.detached(depth+1, arg)}}
 	case k == 3 && depth < 3:
 		return xaTerm{T: "op", S: xaCmpOps[b.g.rng.Intn(len(xaCmpOps))], A: []xaTerm{b.detached(depth+1, arg), b.detached(depth+1, arg)}}
-	case k == 4:
-		return xaTerm{T: "buffer", A: []xaTerm{b.detached(depth+1, arg)}, N: b.g.bytes(3)}
+	case k == 4 && !arg:
+		return xaTerm{T: "buffer", A: []xaTerm{b.detached(depth+1, false)}, N: b.g.bytes(3)}
 	case k == 5:
 		return xaTerm{T: "op", S: "Match", A: []xaTerm{b.simple(), {T: "byte", N: []int{b.g.rng.Intn(6)}}, b.simple(), {T: "byte", N: []int{b.g.rng.Intn(6)}}, b.simple(), b.simple()}}
 	}
@@ -589,6 +598,9 @@ func xaX(t xaTerm) xaTok { return xaTok{K: "stmt", Op: "x", X: []xaTerm{t}} }
 
 func (b *xaBodyGen) stmts(depth int, n int, strict bool) []xaTok {
 	var out []xaTok
+	wasStrict := b.strict
+	b.strict = strict
+	defer func() { b.strict = wasStrict }()
 	expr := func() xaTerm {
 		if strict {
 			return b.strictOperand(0, false)
@@ -599,8 +611,10 @@ func (b *xaBodyGen) stmts(depth int, n int, strict bool) []xaTok {
 	if strict {
 		arg = func(d int) xaTerm { return b.strictOperand(d, true) }
 	}
-	for i := 0; i < n; i++ {
-		last := i == n-1
+	real := 0 // statements that leave something in the tree
+	for i := 0; i < n || real == 0; i++ {
+		last := i >= n-1
+		before := len(out)
 		switch k := b.g.rng.Intn(20); {
 		case k < 2:
 			out = append(out, xaTok{K: "stmt", Op: "ret", X: []xaTerm{expr()}})
@@ -627,6 +641,9 @@ func (b *xaBodyGen) stmts(depth int, n int, strict bool) []xaTok {
 		case k == 13 && strict:
 			out = append(out, xaX(xaTerm{T: "op", S: []string{"Break", "Continue"}[b.g.rng.Intn(2)]}))
 		case k < 17 && depth < 3 && (!strict || last):
+			if !strict {
+				b.inIf++
+			}
 			pred := expr()
 			if strict {
 				pred = b.strictOperand(1, false)
@@ -636,15 +653,31 @@ func (b *xaBodyGen) stmts(depth int, n int, strict bool) []xaTok {
 			out = append(out, xaTok{K: "close"})
 			if !strict && b.g.rng.Intn(2) == 0 {
 				out = append(out, xaTok{K: "else", W: b.g.width()})
-				out = append(out, b.stmts(depth+1, b.g.rng.Intn(3), strict)...)
+				if b.g.rng.Intn(4) > 0 {
+					out = append(out, b.stmts(depth+1, 1+b.g.rng.Intn(2), strict)...)
+				}
 				out = append(out, xaTok{K: "close"})
 			}
+			if !strict {
+				b.inIf--
+			}
 		case k < 19 && depth < 3 && (!strict || last):
+			b.strict = true
 			out = append(out, xaTok{K: "while", X: []xaTerm{b.strictOperand(1, false)}, W: b.g.width()})
-			out = append(out, b.stmts(depth+1, b.g.rng.Intn(4), true)...)
+			if b.g.rng.Intn(5) > 0 {
+				out = append(out, b.stmts(depth+1, 1+b.g.rng.Intn(3), true)...)
+			}
 			out = append(out, xaTok{K: "close"})
+			b.strict = strict
 		default:
 			out = append(out, xaTok{K: "stmt", Op: "noop"})
+			continue
+		}
+		if len(out) > before {
+			real++
+		}
+		if strict && last && real > 0 {
+			break
 		}
 	}
 	return out
@@ -680,7 +713,9 @@ func xaRandomProgram(seed int64) []xaTok {
 	for _, o := range g.objs {
 		if o.kind == "Method" {
 			b := &xaBodyGen{g: g, m: o}
-			o.node.body = b.stmts(0, g.rng.Intn(6), false)
+			if g.rng.Intn(8) > 0 {
+				o.node.body = b.stmts(0, 1+g.rng.Intn(5), false)
+			}
 		}
 	}
 	var toks []xaTok
